@@ -178,6 +178,30 @@ macro_rules! probe {
             let outb: [u8; 32] = b.finalize().into();
             println!("set={} behave={}", $set, hex(&outb));
         }
+        // ---- rare-event digest: corpus seeds / signature tuples (offline SHAKE searches), same stream as `vcheck featref` ----
+        {
+            let mut r = Sha256::new();
+            for line in rare_lines() {
+                let f: Vec<&str> = line.split_whitespace().collect();
+                if f.len() < 3 || f[1].parse::<u32>().ok() != Some($set) {
+                    continue;
+                }
+                let xi: [u8; 32] = unhex(f[2]).try_into().expect("xi");
+                let (pk, sk) = fips204::$m::KG::keygen_from_seed(&xi);
+                let (m, rnd): (Vec<u8>, [u8; 32]) = if f[0] == "S" { (unhex(f[3]), unhex(f[4]).try_into().expect("rnd")) } else { (b"rare".to_vec(), h("rare-rnd", $seed, $set, 0, 0)) };
+                if f[0] == "K" {
+                    r.update(pk.clone().into_bytes());
+                    r.update(sk.clone().into_bytes());
+                    r.update(sk.get_public_key().into_bytes());
+                }
+                let mut rng = Replay(rnd, 0);
+                let sig = sk.try_sign_with_rng(&mut rng, &m, &[]).expect("sign");
+                r.update(sig);
+                r.update([u8::from(pk.verify(&m, &sig, &[]))]);
+            }
+            let outr: [u8; 32] = r.finalize().into();
+            println!("set={} rare={}", $set, hex(&outr));
+        }
         #[cfg(feature = "dudect")]
         {
             let mut rng = Replay(h("dudect", $seed, $set, 0, 0), 0);
@@ -193,6 +217,17 @@ macro_rules! probe {
             println!("set={} osrng={}", $set, pk.verify(b"os rng", &s, &[1]));
         }
     }};
+}
+
+fn unhex(s: &str) -> Vec<u8> { (0..s.len() / 2).map(|i| u8::from_str_radix(&s[2 * i..2 * i + 2], 16).expect("hex")).collect() }
+
+/// lines of the rare-event file (third argument): `K <set> <xi>` or `S <set> <xi> <msg> <rnd>`
+#[allow(dead_code)]
+fn rare_lines() -> Vec<String> {
+    match std::env::args().nth(3) {
+        Some(p) => std::fs::read_to_string(p).expect("rare-event file").lines().map(str::to_string).collect(),
+        None => Vec::new(),
+    }
 }
 
 fn hex(b: &[u8]) -> String { b.iter().map(|x| format!("{x:02x}")).collect() }
